@@ -12,6 +12,7 @@ import (
 	"fmt"
 	"os"
 	"os/exec"
+	"runtime/debug"
 	"sort"
 	"strings"
 	"time"
@@ -250,6 +251,67 @@ func (c *Ctx) setClass(class string) {
 	}
 }
 
+// recoverCase is deferred around one case of a stream. A panic that a call into the library raises where
+// the harness does not expect one (the calls it knows can panic on malformed input carry their own recover)
+// is a failing case of the property under check, with the operations of the case as the replay; the stream
+// goes on with its next case. A panic with no library frame on its stack is a defect of the harness and is
+// raised again.
+func (c *Ctx) recoverCase() {
+	r := recover()
+	if r == nil {
+		return
+	}
+	stack := string(debug.Stack())
+	var frames []string
+	lines := strings.Split(stack, "\n")
+	for i, l := range lines {
+		if strings.HasPrefix(l, "github.com/celestiaorg/go-square/") && i+1 < len(lines) {
+			fn := l
+			if k := strings.LastIndex(fn, "("); k > 0 {
+				fn = fn[:k]
+			}
+			loc := strings.TrimSpace(lines[i+1])
+			if k := strings.LastIndex(loc, " +0x"); k > 0 {
+				loc = loc[:k]
+			}
+			if k := strings.LastIndex(loc, "/"); k > 0 {
+				if k2 := strings.LastIndex(loc[:k], "/"); k2 > 0 {
+					loc = loc[k2+1:]
+				}
+			}
+			frames = append(frames, fn+" ("+loc+")")
+		}
+	}
+	if len(frames) == 0 {
+		panic(r)
+	}
+	if len(frames) > 4 {
+		frames = frames[:4]
+	}
+	class := ""
+	if c.drv != nil {
+		class = c.drv.class
+	}
+	what := fmt.Sprintf("the library panicked during a sequence of valid calls: %v in %s", r, frames[0])
+	ops := append([]string(nil), c.caseOps...)
+	if len(ops) > 64 {
+		ops = append([]string{"…(earlier ops of this case omitted)"}, ops[len(ops)-64:]...)
+	}
+	reported := false
+	for p := range c.props {
+		if p == "" {
+			continue
+		}
+		c.violate(p, class, what, strings.Join(frames, " <- "), ops)
+		reported = true
+	}
+	if !reported {
+		c.violate("C16", class, what, strings.Join(frames, " <- "), ops)
+	}
+	c.goOnly = false
+	c.dist("case-ended-by-library-panic")
+}
+
 // newCase starts a fresh driver state.
 func (c *Ctx) newCase() {
 	c.setClass("")
@@ -426,7 +488,11 @@ func main() {
 			c.drv = d
 		}
 		t0 := time.Now()
-		fn(c)
+		func() {
+			// last resort: a library panic outside any guarded case ends the stream with a reported failing case
+			defer c.recoverCase()
+			fn(c)
+		}()
 		if c.drv != nil {
 			c.drv.close()
 			if c.drv.err != "" {
